@@ -31,7 +31,7 @@ pub fn read_schedule(cx: &mut Ctx, stream: &[u8], arrivals: &[usize], caps: &mut
             reads += 1;
             let p: Vec<&str> = res.split(' ').collect();
             if p[0] != "bytes" { return off; }
-            let i: usize = p[1].parse().unwrap();
+            let i: usize = p[1].parse().unwrap_or(0);
             let produced = p[2] != "-";
             off += i;
             let can = cx.op("canproceed");
@@ -195,7 +195,7 @@ pub fn c07(cx: &mut Ctx) {
             let res = cx.op(&format!("bread {} {}", hx(&stream[off..upto]), r.range(1, 6)));
             let p: Vec<&str> = res.split(' ').collect();
             if p[0] != "bytes" { break; }
-            off += p[1].parse::<usize>().unwrap();
+            off += p[1].parse::<usize>().unwrap_or(0);
             cx.op("boundary");
             if cx.op("canproceed") == "bool true" { break; }
         }
@@ -247,7 +247,7 @@ pub fn c08(cx: &mut Ctx) {
                 let win: Vec<u8> = (0..w).map(|i| ((done as usize + i) % 251) as u8).collect();
                 let res = cx.op(&format!("bread {} {}", hx(&win), cap));
                 let p: Vec<&str> = res.split(' ').collect();
-                if p[0] == "bytes" { done += p[1].parse::<u64>().unwrap(); }
+                if p[0] == "bytes" { done += p[1].parse::<u64>().unwrap_or(0); }
                 cx.op("canproceed");
             }
             if n <= 70000 {
